@@ -49,7 +49,14 @@ fn scale_case(i: u64, rng: &mut Rng) -> Option<(Params, SampleSet)> {
                 }
             }
             let sn = format!("M{}#0", [9, 10, 2][si]);
-            samples.push(gen::Sample { name: sn.clone(), contigs: vec![(format!("{}#chr1 len={}", sn, len), d)] });
+            let mut contigs = vec![(format!("{}#chr1 len={}", sn, len), d)];
+            if si == 1 {
+                // a novel contig without any splitter: one raw segment whose length needs the
+                // 4-byte form of the collection integers (>= 2 113 664)
+                let nl = rng.usize(2_150_000, 2_400_000);
+                contigs.push((format!("{}#novel len={}", sn, nl), gen::random_bases(rng, nl)));
+            }
+            samples.push(gen::Sample { name: sn.clone(), contigs });
         }
     } else {
         p.k = rng.usize(9, 13);
